@@ -8,13 +8,13 @@ Definition sweep (len : nat) (f : N -> bool) : obs := OL (map (fun L => OB (f (N
 
 (* value [v] of type [t] sits in the leaf *)
 Definition c05_case (t : lty) (v : lval) : obs :=
-  let jb := jenc v in
+  let jb := jenc_t t v in
   let pb := penc t v in
   OL [ OB (has_ty t v);
        Obs_bytes jb;
-       sweep (length jb) (fun cap => match json_get cap v with Some _ => true | None => false end);
+       sweep (length jb) (fun cap => match json_get t cap v with Some _ => true | None => false end);
        (match json_set t jb with
-        | SetOk v' n => OL [OZ 1; ON n; OB (obs_eqb (Obs_bytes (jenc v')) (Obs_bytes jb))]
+        | SetOk v' n => OL [OZ 1; ON n; OB (obs_eqb (Obs_bytes (jenc_t t v')) (Obs_bytes jb))]
         | SetTrailing _ => OL [OZ 2] | SetErr => OL [OZ 0] end);
        (match json_set t (jb ++ [32; 120]%N) with SetOk _ _ => OZ 1 | SetTrailing _ => OZ 2 | SetErr => OZ 0 end);
        Obs_bytes pb;
